@@ -765,6 +765,48 @@ def rule_J4(ctx) -> None:
         ctx.proved("J4", "_from_dict_init:element-wise", mod.loc(fn))
 
 
+def rule_J9(ctx, rule: str = "J9") -> None:
+    """enums are open on the dict / JSON side as on the wire: what _from_dict_init makes of a *number* found for an enum field is
+    the number itself or Enum.try_value(number) - never the closed constructor `EnumClass(number)`, which raises ValueError for a
+    number the Python class does not define although to_dict emits exactly such numbers as they are"""
+    mod = ctx.repo.mod(M_INIT)
+    fn = mod.func("Message._from_dict_init")
+    ctx.analysed("Message._from_dict_init")
+    # the locals that hold the enum class of the field: bound from cls_by_field / _cls_for / _type_hint ...
+    paths = _fdi_interp(mod, bindings={A(META, "proto_type"): "enum", A(META, "map_types"): None}, fork_ifexp=True).run(fn)
+    ctx.count(len(paths))
+    bad = None
+    n = 0
+    for p in paths:
+        for e in p.events:
+            if e.kind != "call":
+                continue
+            f = e.data[1]
+            # a call of a class looked up for the field (`<table>[..](x)` / `<local bound to it>(x)`), with the incoming value
+            text = show(f)
+            if ("cls_by_field" in text or "_cls_for" in text or "_type_hint" in text) and f[0] in ("sub", "call", "n") and len(e.data[2]) == 1 and not e.data[3] \
+                    and "$jvalue" in show(e.data[2][0]):
+                n += 1
+                bad = bad or (e, p)
+    # syntactic companion: a local assigned from the class table and then called with the value
+    cls_locals = {t.id for a in ast.walk(fn) if isinstance(a, ast.Assign) for t in a.targets if isinstance(t, ast.Name)
+                  and any(isinstance(x, ast.Attribute) and x.attr in ("cls_by_field",) for x in ast.walk(a.value)) or
+                  (isinstance(a, ast.Assign) and isinstance(a.value, ast.Call) and "_cls_for" in ast.unparse(a.value.func) and any(isinstance(t2, ast.Name) and t2.id == t.id for t2 in a.targets))}
+    strict = [c for c in ast.walk(fn) if isinstance(c, ast.Call) and isinstance(c.func, ast.Name) and c.func.id in cls_locals and "enum" in c.func.id.lower()
+              and len(c.args) == 1 and not c.keywords]
+    name = "_from_dict_init:enum-numbers-stay-open"
+    if strict:
+        c = strict[0]
+        ctx.refuted(rule, name, ast.unparse(c)[:60], mod.loc(c), f"`{ast.unparse(c)}` converts a number found for an enum field with the closed constructor of the enum class: a number the class "
+                    "does not define raises ValueError, yet to_dict / to_json emit exactly such numbers (received from a newer peer) as plain numbers - the dict / JSON round trip fails",
+                    "m = M().parse(<enum field = 7, undefined>); M().from_dict(m.to_dict())")
+    elif bad:
+        e, p = bad
+        ctx.refuted(rule, name, show(e.data)[:60], f"{mod.rel}:{e.line}", f"`{show(e.data)}` applies the field's class to the incoming value: the closed enum constructor raises for undefined numbers")
+    else:
+        ctx.proved(rule, name, mod.loc(fn), "numbers found for enum fields are kept (or go through try_value)")
+
+
 def rule_J5(ctx) -> None:
     """JSON presence: what is set is emitted by to_dict whatever its value"""
     mod = ctx.repo.mod(M_INIT)
